@@ -99,12 +99,21 @@ Arrive(n) ==
   /\ p' = p + n
   /\ UNCHANGED <<kind, frs, wire>>
 
-Next == \E n \in 1..MaxChunk : Arrive(n)
+\* the link is idle: the receive call times out and the client looks at what it already holds (TcpClient.run: zmq.error.Again)
+Idle ==
+  /\ LET r == RefRead(kind, rxbuf)
+     IN  /\ out' = out \o r[1]
+         /\ rxbuf' = r[2]
+  /\ UNCHANGED <<kind, frs, wire, p>>
+
+Next == (\E n \in 1..MaxChunk : Arrive(n)) \/ Idle
 
 FramingHolds == Framing(kind, frs, p, out)
 \* nothing is ever handed over twice or out of order: the output only grows (action property)
 AppendOnly == [][Len(out') >= Len(out) /\ SubSeq(out', 1, Len(out)) = out]_vars
 \* at the end of the stream everything that can be delivered has been delivered
 Complete == p = Len(wire) => out = OutUpTo(kind, frs, IF kind = "raw" THEN Len(frs) ELSE Len(frs) - 1)
+\* a read without new bytes is a no-op: nothing is handed over and the kept remainder is a fixed point of the framer
+IdleNoOp == [][p' = p => (out' = out /\ rxbuf' = rxbuf)]_vars
 Spec == Init /\ [][Next]_vars
 =============================================================================
